@@ -252,6 +252,12 @@ impl SimSink {
         Self::new(&IoPolicy::default(), &[])
     }
 
+    /// Pre-sizes the output buffer (so that it does not grow while a guard-page run is active).
+    pub fn reserve(self, n: usize) -> Self {
+        self.out.lock().unwrap().reserve(n);
+        self
+    }
+
     pub fn handle(&self) -> (Shared<Vec<u8>>, Shared<IoStats>) {
         (self.out.clone(), self.stats.clone())
     }
